@@ -142,3 +142,42 @@ def parent_invalid_into(rep):
         rep.evaluations += 1
         for rej in static.rejections(x):
             rep.rejected(rej["clause"], {"kind": "parent_invalid", "register": c["register"], "P": c["P"], "C2": c["C2"], "case_id": cid}, {})
+
+
+def child_first_invalid_into(rep):
+    """C18: the offending method is on a parent and the first function put to use is a copy / variant of it (not
+    linked).  "Once the offending method is removed the function works normally": after the removal from the parent
+    both the parent and the child answer according to their complete method sets."""
+    jobs = [{"id": f"C18-childfirst-{how}-{first}", "kind": "child_first_invalid", "how": how, "first": first}
+            for how in ("copy", "variant") for first in ("child", "parent")]
+    res = pool.run(workers.linkfail_cases, jobs, procs=1)
+    bugs = [c for c in res if "skip" in c]
+    if bugs:
+        rep.machinery_failure("harness error (invalid method on a parent, child used first): " + bugs[0]["skip"])
+        return
+    cases = []
+    full = {}
+    for c in res:
+        def step(o, cls, ms, must_config=False):
+            call = {"pos": [{"c": cls}], "kwn": [], "kwa": []}
+            return {"call": call, "methods": ms, "allow_config": must_config, "must_config": must_config,
+                    "obs": {"kind": o["kind"], "resolve": {"kind": "skip", "m": ""},
+                            "entered": [{"m": mid, "call": call, "next": {"has": False, "call": {"pos": [], "kwn": [], "kwa": []}}} for mid in o["entered"]]}}
+        m1 = dict(LF_METHODS["m1"], reg=1)
+        own2 = dict(LF_METHODS["own2"], reg=2)
+        first_ms = [m1, own2] if c["job"]["first"] == "child" else [m1]
+        steps = [step(c["first_call"], 3, first_ms, must_config=True),
+                 step(c["P"]["K3"], 3, [m1]), step(c["P"]["K4"], 4, [m1]),
+                 step(c["C"]["K3"], 3, [m1, own2]), step(c["C"]["K2"], 2, [m1, own2])]
+        cid = c["id"]
+        full[cid] = c
+        cases.append({"id": cid, "props": ["C18"], "world": {"parents": PAR, "methods": []}, "steps": steps})
+    v, r = tlc.judge("Trace_Resolve", cases)
+    rep.add_tlc(r, "judge Trace_Resolve (C18Clause: offender on a parent, a copy / variant used first, then removed from the parent)")
+    rep.judged += len(v)
+    for cid, x in v.items():
+        rep.evaluations += 5
+        for rej in static.rejections(x):
+            c = full[cid]
+            rep.rejected(rej["clause"] + ".after_removal_from_parent" if rej["step"] > 1 else rej["clause"],
+                         {"kind": "child_first_invalid", "job": c["job"], "removal": c["removal"], "P": c["P"], "C": c["C"], "case_id": cid}, {})
